@@ -17,9 +17,13 @@ class C09(EngineACheck):
         "generated programs (nested tasks sharing scarce resources, failures, duplicates) under "
         "feasible limit configurations and seeded completion orders; liveness is judged at "
         "quiescence (no queued event, nothing in flight) and by a step cap; a case is (program, "
-        "limits, schedule signature); non-trivial = two jobs in flight at once"
+        "limits, schedule signature); non-trivial = two jobs in flight at once. One case in four "
+        "runs two executions on the same Scheduler object: the first may fail with limited jobs "
+        "still in flight, then the failing task is repaired and the second execution is judged "
+        "the same way"
     )
-    EXPECTED_PROBES = ["jobs_waited_for_limits", "failed_runs", "returned_runs"]
+    EXPECTED_PROBES = ["jobs_waited_for_limits", "failed_runs", "returned_runs",
+                       "second_execution_after_failed_one"]
     QUICK_SECONDS = 35.0
 
     def run_one(self, ch: Choices) -> RunOutcome:
@@ -33,21 +37,54 @@ class C09(EngineACheck):
             out.probe("twin_family_programs")
         else:
             prog = Gen(ch, cfg).generate()
-        res = enginea.simulate(ch, prog, step_cap=6000)
+        reuse = ch.choice(4, "reuse-scheduler") == 3 and hasattr(prog, "tasks") and prog.tasks
+        if not reuse:
+            res = enginea.simulate(ch, prog, step_cap=6000)
+            self.judge(out, res, prog)
+            out.sample = self.sample(prog, res.world, res)
+            return out
+        # The same Scheduler object runs two executions: the first may fail with jobs still in
+        # flight (holding resource units); after the failing task was repaired the second one
+        # must terminate and settle like any other.
+        from simkit import schedsim
+
+        out.probe("reused_scheduler_cases")
+        db = schedsim.fresh_db("reuse.db")
+        with enginea.ProgramSession(prog) as sess:
+            first = enginea.simulate(ch, prog, db_path=db, session=sess, keep_backend=True,
+                                     step_cap=6000)
+            self.judge(out, first, prog)
+            res = first
+            if first.outcome[0] == "e" and not out.violations:
+                out.probe("second_execution_after_failed_one")
+                for t in prog.tasks:
+                    t.raises = None
+                sess.reload(prog)
+                res = enginea.simulate(ch, prog, db_path=db, session=sess, keep_backend=True,
+                                       scheduler=first.scheduler, step_cap=6000)
+                self.judge(out, res, prog, label="reused-scheduler/")
+            schedsim.close_backend(first.scheduler.backend)
+        out.sample = self.sample(prog, res.world, res)
+        return out
+
+    def judge(self, out: RunOutcome, res, prog, label: str = "") -> None:
+        def V(oracle, sig, detail):  # (the label goes into the detail, not the signature)
+            out.violate(oracle, sig, dict(detail, where=label or "first-execution"))
+
         w, rec, sched = res.world, res.rec, res.scheduler
         self.fill(out, w, prog)
         kind = res.outcome[0]
         if kind == "abort":
             if res.outcome[1] == "deadlock":
                 pend = [(j.task.fullname, dict(j.get_limits())) for j, _ in sched._jobs_pending_limits]
-                out.violate("C09.no_deadlock",
+                V("C09.no_deadlock",
                             "pending-limits" if pend else "no-pending-limits",
                             {"pending_limits": pend, "limits_used": dict(sched.limits_used),
                              "limits": dict(sched.limits),
                              "unsettled": [rec.jobs[j].task for j in rec.order
                                            if not rec.jobs[j].finalized][:10]})
             else:
-                out.violate("C09.terminates", res.outcome[1], {"steps": w.steps})
+                V("C09.terminates", res.outcome[1], {"steps": w.steps})
         elif kind == "v":
             out.probe("returned_runs")
             # A failure handled by catch / catch_all lets the execution go on and return while
@@ -70,25 +107,24 @@ class C09(EngineACheck):
                     elif r.finalized == 0 and caught_failure and in_flight_orphans:
                         # never started: its arguments may be waiting for such an orphan
                         sig = "waiting-for-in-flight-orphan/after-caught-failure"
-                    out.violate("C09.all_settled", sig,
+                    V("C09.all_settled", sig,
                                 {"task": r.task, "exec_count": r.exec_count,
                                  "handoffs": r.handoffs, "outcome": repr(r.outcome)[:100]})
                 elif r.status not in ("DONE", "CACHED", "FAILED"):
-                    out.violate("C09.all_settled", f"final-status-{r.status}", {"task": r.task})
+                    V("C09.all_settled", f"final-status-{r.status}", {"task": r.task})
             left = [j for j in sched._jobs if rec.jobs[j.id].finalized]
             if left:
-                out.violate("C09.all_settled", "scheduler-jobs-left",
+                V("C09.all_settled", "scheduler-jobs-left",
                             {"jobs": sorted(j.task.fullname for j in left)[:10]})
             if sched._jobs_pending_limits:
-                out.violate("C09.all_settled", "pending-limits-left",
+                V("C09.all_settled", "pending-limits-left",
                             {"n": len(sched._jobs_pending_limits)})
         else:
             out.probe("failed_runs")
             for jid in rec.order:
                 if rec.jobs[jid].exec_count > 1:
                     out.probe("jobs_waited_for_limits")
-        out.sample = self.sample(prog, w, res)
-        return out
+
 
 
 CHECK = C09
